@@ -62,6 +62,14 @@ def Exec.strip : Exec → Exec
   | .live => .none
   | e => e
 
+/-- a `__getstate__` that keeps only the instructions it recognises (`recognised k`, e.g. "the callable
+is a class") and drops the rest together with live executors — although `_parse_executor` accepts any
+callable in first place (a provider function handing several nodes one shared executor) -/
+def Exec.stripNarrow (recognised : Nat → Bool) : Exec → Exec
+  | .live => .none
+  | .instr k => if recognised k then .instr k else .none
+  | .none => .none
+
 /-- `KeyError` (node label lookup), `AttributeError` (channel label lookup), `RuntimeError` (locked
 input), `TypeError` (class mismatch), `ChannelConnectionError` (a stored connection is refused) -/
 inductive Err | key | attr | runtime | type | conn
